@@ -163,6 +163,13 @@ def generic_external(X, ins, key):
             v = w.fresh('ext', w.sort(t))
             for f in well_typed(X.V, X.heap, v, t):
                 X.hyp(f)
+            # constructors (New...) of the trusted packages return a usable object, never nil
+            fname = key.rsplit('.', 1)[-1]
+            if fname.startswith('New') and len(tys) == 1:
+                if kind == 'ptr':
+                    X.hyp(v != 0)
+                elif kind == 'iface':
+                    X.hyp(w.Iface.tag(v) > 0)
             res.append(v)
     # method call on a nil foreign pointer receiver
     setres(X, ins, res)
@@ -300,6 +307,11 @@ def assign_targets(X, ast, ev):
         if name == 'allfields':
             ty = resolve_type(w, args[0][1], ev.pkg)
             return [(('f', ty, f['name']), None) for f in w.struct_fields(ty)]
+        if name == 'stream':
+            # stream(r): the abstract rune stream behind the *bufio.Reader r
+            from .externals import rd_keys
+            v = ev.ev(args[0])
+            return [(k_, v.t) for k_ in rd_keys()]
     if k == 'id':
         v = ev.env.get(ast[1])
         if isinstance(v, LValue) and v.kind == 'cell':
